@@ -70,8 +70,8 @@ def run(ctx, chk):
                msg="a stamp-only (or other partial) header write can be chosen while a full write is pending: the new "
                    "computed version never reaches the disk and a re-import pairs new results with the old version")
     comp = {bid: b for bid, b in P.bodies.items() if is_compute(bid) and b.kind != "closure"}
-    if len(comp) < 70:
-        raise AnchorMissing("expected >= 70 compute_* methods of EagerVec, found %d" % len(comp))
+    if len(comp) < 40:
+        raise AnchorMissing("expected >= 40 compute_* methods of EagerVec, found %d" % len(comp))
     for v in VALIDATORS:
         if v not in P.bodies:
             raise AnchorMissing("validator %s not found" % v)
